@@ -73,7 +73,9 @@ def measurement_specs(draw, attrs, shape, min_m=1, max_m=5, max_proj=3, max_cell
         elif mode == 'reorder':
             base = draw(st.sampled_from(out))['proj']
             proj = list(reversed(base))
-        if tiny_noise and draw(st.integers(0, 5)) == 0:
+        if tiny_noise and draw(st.integers(0, 11)) == 0:
+            nz = float(10 ** draw(st.floats(2.0, 6.0)))        # nearly uninformative measurements (noise far above the total)
+        elif tiny_noise and draw(st.integers(0, 5)) == 0:
             nz = float(10 ** draw(st.floats(-4.5, -1.5)))      # measurements that are very precise relative to the total
         else:
             nz = float(10 ** draw(st.floats(math.log10(noise_lo), math.log10(noise_hi)))) if draw(st.booleans()) else 1.0
@@ -217,6 +219,10 @@ def est_cases(draw, min_attrs=2, max_attrs=4, max_size=4, cap=256, min_m=0, max_
     meas = draw(measurement_specs(attrs, shape, min_m, max_m, max_proj=3, max_cells=64, kinds=kinds, tiny_noise=tiny_noise)) if max_m > 0 else []
     if max_m >= 3 and len(attrs) >= 3 and draw(st.integers(0, 2)) == 0:
         meas = draw(hub_measurement_specs(attrs, shape, kinds))      # tree of pairwise projections (+ singles)
+    if tiny_noise and meas and draw(st.integers(0, 9)) == 0:
+        # every measurement nearly uninformative: noise scales far above the total (tiny Lipschitz constant)
+        f = float(10 ** draw(st.floats(3.0, 6.0)))
+        meas = [dict(m, noise=m['noise'] * f) for m in meas]
     witness = [draw(st.integers(0, s - 1)) for s in shape]
     case = {'domain': dom, 'meas': meas, 'data_seed': draw(st.integers(0, 2**31 - 1)),
             'total': draw(st.sampled_from(list(totals))), 'true_total': draw(st.sampled_from([1.0, 20.0, 500.0])),
